@@ -78,7 +78,7 @@ def evaluate(plan, ctx):
             chunk_ops.append(["predict", plan["queries"][-1]])
         pos += s
     twin.must_succeed(b, chunk_ops, "chunked training")
-    mode = streams.align(a, b)
+    mode = streams.align(a, b, normalise=False)
     exact = plan["family"] not in ("F", "Fpos")
     linear = cfg["lp"][0] in ops.LINEAR
     tol = 0.0 if exact else (1e-6 if linear else 1e-9)
